@@ -192,6 +192,21 @@ def run(ctx):
                     wd, excd = observe(ebb3_call(objd, h, a), portd)
                     if excd or wd != want:
                         ctx.violation("text.late_reply_same_text", dict(case, layer="ebb3", delay=2), want, excd or wd)
+            if n % 5 == 0:
+                # "with no port, nothing is sent" also after the object gave its port up while close() complained (the device was already gone)
+                for how in ("disconnect", "reboot"):
+                    portc = ebbfake.EchoPort(qe, close_raises=True)
+                    objc = e3m.EBBMotionWrap()
+                    objc.port = portc
+                    try:
+                        getattr(objc, how)()
+                    except Exception:  # pylint: disable=broad-except
+                        pass
+                    before = len(portc.writes)
+                    _w, excc = observe(ebb3_call(objc, h, a), portc)
+                    if excc or len(portc.writes) != before:
+                        ctx.violation("text.no_port_nothing_sent", dict(case, layer="ebb3", port="given up by %s() while close() raised" % how), "no effect",
+                                      excc or portc.writes[before:])
             obj0 = e3m.EBBMotionWrap()                      # not connected: nothing can be sent; must not raise
             _w, exc0 = observe(ebb3_call(obj0, h, a), ebbfake.EchoPort())
             if exc0:
